@@ -8,6 +8,9 @@ Case line (see harness/h_link.c):
 
 WK = b".well-known/core"
 
+NEAR_WK = [WK + b"2", WK + b"/extra", WK + b"/", WK[:-1], b".well-known", b"z/" + WK, WK.upper(),
+           WK + b"\x00", b".well-known/corf"]
+
 SEGS = [b"a", b"ab", b"abc", b"b", b"s", b"sensors", b"temp", b"light", b"t", b"x*", b"a=b", b"r t"]
 NAMES = [b"rt", b"if", b"rel", b"ct", b"title", b"sz", b"x", b"r", b"rtx", b"href", b""]
 TOKS = [b"a", b"ab", b"abc", b"cd", b"temp", b"temperature-c", b"core.s", b"sensor", b"x", b"40",
@@ -24,8 +27,8 @@ def gen_path(r):
         return b""
     if x < 0.08:
         return WK
-    if x < 0.10:
-        return WK[:-1]
+    if x < 0.16:
+        return r.choice(NEAR_WK)      # near misses of the path that is left out of the listing
     n = r.choice([1, 1, 1, 2, 2, 3])
     return b"/".join(r.choice(SEGS) for _ in range(n))
 
